@@ -300,6 +300,10 @@ func c14(r *core.Report) {
 	ruleDoneAfterCallback(r, h, "C14-DONE-AFTER-CALLBACK")
 	// the callback's side of the same ownership rule (shared with C01-BORROW-RECV): whoever is handed a
 	// message keeps no alias of its payload past the call and does not write it
+	// an atomicity violation that the lockset rules cannot see (every access is locked): the id counter
+	// read and its advance must share one critical section (shared with C10-ID-ATOMIC)
+	r.Rule("C14-ID-ATOMIC", "fragment ids are read and advanced in one critical section (or by one atomic add)", 2)
+	ruleFragIDAtomic(r, "C14-ID-ATOMIC")
 	r.Rule("C14-BORROW-RECV", "no alias of a received message's payload is written or outlives the function it was lent to", 9)
 	ruleBorrowRecv(r, h, newBorrowEngine(p, h), "C14-BORROW-RECV")
 
